@@ -260,9 +260,84 @@ Proof.
   rewrite <- core_not_loop. reflexivity.
 Qed.
 
+Definition elem_cond_ref (e : value) (kv : string * value) : bool :=
+  if is_op (fst kv) then ref_op (snd kv) (fst kv) (elem_root e) elem_path
+  else ref_field ref_op (snd kv) (elem_root e) (elem_path ++ split_path (fst kv)).
+
+Definition elem_cond_core (full : bool) (e : value) (kv : string * value) : bool :=
+  if is_op (fst kv) then core_op full (snd kv) (fst kv) (elem_root e) elem_path
+  else core_field (core_op full) (snd kv) (elem_root e) (elem_path ++ split_path (fst kv)).
+
+Lemma ref_op_elem x root p :
+  ref_op x "$elemMatch" root p =
+  match x with
+  | VDoc q =>
+      some_unexpanded root p
+        (fun c => match c with
+                  | VArr es => existsb (fun e => forallb (elem_cond_ref e) q) es
+                  | _ => false
+                  end)
+  | _ => false
+  end.
+Proof.
+  destruct x; try reflexivity. simpl. unfold some_unexpanded.
+  apply existsb_ext_in. intros c _. destruct c; try reflexivity.
+  apply existsb_ext_in. intros e _.
+  induction d as [|[k y] t IH]; [reflexivity|]. cbn [forallb]. rewrite <- IH. reflexivity.
+Qed.
+
+Lemma forallb_ext_in {A} (f g : A -> bool) l :
+  (forall a, In a l -> f a = g a) -> forallb f l = forallb g l.
+Proof.
+  induction l as [|a l IH]; intro H; [reflexivity|]. simpl.
+  rewrite (H a) by (left; reflexivity). rewrite IH; [reflexivity|]. intros b Hb. apply H. right. exact Hb.
+Qed.
+
+Lemma core_elem_loop full e l :
+  (fix go (q : list (string * value)) : bool :=
+     match q with
+     | [] => true
+     | (k, y) :: t =>
+         (if is_op k then core_op full y k (elem_root e) elem_path
+          else core_field (core_op full) y (elem_root e) (elem_path ++ split_path k)) && go t
+     end) l = forallb (elem_cond_core full e) l.
+Proof. induction l as [|[k y] t IH]; [reflexivity|]. cbn [forallb]. rewrite <- IH. reflexivity. Qed.
+
+Lemma core_op_elem full x root p :
+  core_op full x "$elemMatch" root p =
+  negb (fans_out root p) &&
+  match x with
+  | VDoc [] => false
+  | VDoc q =>
+      forallb (fun c => match c with
+                        | VArr es => forallb (fun e => forallb (elem_cond_core full e) q) es
+                        | _ => true
+                        end) (rlookup root p)
+  | _ => false
+  end.
+Proof.
+  destruct x; try reflexivity. destruct d as [|kv0 d]; [reflexivity|].
+  transitivity (negb (fans_out root p) &&
+                forallb (fun c => match c with
+                                  | VArr es =>
+                                      forallb (fun e =>
+                                        (fix go (q : list (string * value)) : bool :=
+                                           match q with
+                                           | [] => true
+                                           | (k, y) :: t =>
+                                               (if is_op k then core_op full y k (elem_root e) elem_path
+                                                else core_field (core_op full) y (elem_root e)
+                                                       (elem_path ++ split_path k)) && go t
+                                           end) (kv0 :: d)) es
+                                  | _ => true
+                                  end) (rlookup root p)); [reflexivity|].
+  f_equal. apply forallb_ext_in. intros c _. destruct c; try reflexivity.
+  apply forallb_ext_in. intros e _. exact (core_elem_loop full e (kv0 :: d)).
+Qed.
+
 (* the operators of the covered domain *)
 Definition covered_ops : list string :=
-  rel_ops ++ ["$ne"; "$in"; "$nin"; "$exists"; "$type"; "$size"; "$mod"; "$not"; "$all"] ++ bits_ops.
+  rel_ops ++ ["$ne"; "$in"; "$nin"; "$exists"; "$type"; "$size"; "$mod"; "$not"; "$all"; "$elemMatch"] ++ bits_ops.
 
 Lemma core_op_covered x op root p :
   core_op false x op root p = true -> In op covered_ops.
@@ -282,8 +357,7 @@ Proof.
       repeat match goal with E0 : String.eqb op _ = false |- _ => rewrite E0 end. reflexivity. }
     destruct x; simpl in H; rewrite ?Hrel, ?Hbits in H;
       repeat match goal with E0 : String.eqb op _ = false |- _ => rewrite E0 in H end;
-      simpl in H; try discriminate;
-      destruct (String.eqb op "$elemMatch"); discriminate.
+      simpl in H; discriminate.
 Qed.
 
 (* ---------------------------------------------------------------- *)
@@ -686,7 +760,7 @@ Proof.
 Qed.
 
 (* ---------------------------------------------------------------- *)
-(* all covered expression operators, by induction on the argument ($not) *)
+(* all expression operators, by induction on the argument ($not, $elemMatch) *)
 
 Lemma all_ops_forallb rop exps root p :
   all_ops rop exps root p = forallb (fun e => is_op (fst e) && rop (snd e) (fst e) root p) exps.
@@ -696,54 +770,176 @@ Lemma core_ops_forallb cop exps root p :
   core_ops cop exps root p = forallb (fun e => is_op (fst e) && cop (snd e) (fst e) root p) exps.
 Proof. unfold core_ops. induction exps as [|[k y] t IH]; [reflexivity|]. simpl. rewrite <- IH. reflexivity. Qed.
 
-Section Ops.
-  Variable d : doc.
-  Variable ps : string.
-  Local Notation root := (VDoc d).
-  Local Notation p := (split_path ps).
-  Hypothesis H1 : d1 root = true.
-  Hypothesis H3 : d3 root = true.
-  Hypothesis Hg : good_path p = true.
+Definition op_agrees (y : value) : Prop :=
+  forall d ps op,
+    d1 (VDoc d) = true -> d3 (VDoc d) = true -> good_path (split_path ps) = true ->
+    core_op false y op (VDoc d) (split_path ps) = true ->
+    eval_op y op d ps = Ok (ref_op y op (VDoc d) (split_path ps)).
 
-  Definition op_agrees (y : value) : Prop :=
-    forall op, core_op false y op root p = true -> eval_op y op d ps = Ok (ref_op y op root p).
+Definition field_agrees (y : value) : Prop :=
+  forall d ps,
+    d1 (VDoc d) = true -> d3 (VDoc d) = true ->
+    core_field (core_op false) y (VDoc d) (split_path ps) = true ->
+    field_cond eval_op y d ps = Ok (ref_field ref_op y (VDoc d) (split_path ps)).
 
-  Lemma ops_loop_ref exps :
-    Forall (fun kv => op_agrees (snd kv)) exps ->
-    forallb (fun e => is_op (fst e) && core_op false (snd e) (fst e) root p) exps = true ->
-    ops_loop eval_op exps d ps
-    = Ok (forallb (fun e => is_op (fst e) && ref_op (snd e) (fst e) root p) exps).
-  Proof.
-    induction exps as [|[k y] t IH]; intros HF Hc; [reflexivity|].
-    inversion HF as [|? ? Hy Ht]; subst. simpl in Hc.
-    apply andb_prop in Hc. destruct Hc as [Hk Hct]. apply andb_prop in Hk. destruct Hk as [Hop Hcy].
-    rewrite ops_loop_cons. simpl fst in *. simpl snd in *. rewrite Hop.
-    rewrite (Hy k Hcy), (IH Ht Hct). simpl forallb. rewrite Hop. simpl.
-    destruct (ref_op y k root p); reflexivity.
-  Qed.
+Lemma ops_loop_ref d ps exps :
+  d1 (VDoc d) = true -> d3 (VDoc d) = true -> good_path (split_path ps) = true ->
+  Forall (fun kv => op_agrees (snd kv)) exps ->
+  forallb (fun e => is_op (fst e) && core_op false (snd e) (fst e) (VDoc d) (split_path ps)) exps = true ->
+  ops_loop eval_op exps d ps
+  = Ok (forallb (fun e => is_op (fst e) && ref_op (snd e) (fst e) (VDoc d) (split_path ps)) exps).
+Proof.
+  intros H1 H3 Hg. induction exps as [|[k y] t IH]; intros HF Hc; [reflexivity|].
+  inversion HF as [|? ? Hy Ht]; subst. simpl in Hc.
+  apply andb_prop in Hc. destruct Hc as [Hk Hct]. apply andb_prop in Hk. destruct Hk as [Hop Hcy].
+  rewrite ops_loop_cons. simpl fst in *. simpl snd in *. rewrite Hop.
+  rewrite (Hy d ps k H1 H3 Hg Hcy), (IH Ht Hct). simpl forallb. rewrite Hop. simpl.
+  destruct (ref_op y k (VDoc d) (split_path ps)); reflexivity.
+Qed.
 
-  Lemma forallb_is_op_keys (f : string * value -> bool) exps :
-    forallb (fun e => is_op (fst e) && f e) exps = true -> forallb (fun e => is_op (fst e)) exps = true.
-  Proof.
-    induction exps as [|e t IH]; [reflexivity|]. simpl. intro H.
-    apply andb_prop in H. destruct H as [He Ht]. apply andb_prop in He. destruct He as [He _].
-    rewrite He, (IH Ht). reflexivity.
-  Qed.
+Lemma forallb_is_op_keys (f : string * value -> bool) exps :
+  forallb (fun e => is_op (fst e) && f e) exps = true -> forallb (fun e => is_op (fst e)) exps = true.
+Proof.
+  induction exps as [|e t IH]; [reflexivity|]. simpl. intro H.
+  apply andb_prop in H. destruct H as [He Ht]. apply andb_prop in He. destruct He as [He _].
+  rewrite He, (IH Ht). reflexivity.
+Qed.
 
-  Lemma forallb_drop_is_op (g : string * value -> bool) exps :
-    forallb (fun e => is_op (fst e)) exps = true ->
-    forallb (fun e => is_op (fst e) && g e) exps = forallb g exps.
-  Proof.
-    induction exps as [|e t IH]; [reflexivity|]. simpl. intro H.
-    apply andb_prop in H. destruct H as [He Ht]. rewrite He, (IH Ht). reflexivity.
-  Qed.
+Lemma forallb_drop_is_op (g : string * value -> bool) exps :
+  forallb (fun e => is_op (fst e)) exps = true ->
+  forallb (fun e => is_op (fst e) && g e) exps = forallb g exps.
+Proof.
+  induction exps as [|e t IH]; [reflexivity|]. simpl. intro H.
+  apply andb_prop in H. destruct H as [He Ht]. rewrite He, (IH Ht). reflexivity.
+Qed.
 
-  Theorem op_ref : forall x, op_agrees x.
-  Proof.
-    induction x as [x IHx] using value_ind'. intros op Hc.
-    pose proof (core_op_covered x op root p Hc) as Hin.
+(* field conditions, given agreement for the operator arguments inside *)
+Lemma eval_default d ps x :
+  eval_op x "" d ps = Ok (existsb (fun c => holds "$eq" c x) (candidates d ps)).
+Proof.
+  rewrite eval_op_eq. cbn [lookup_expr assoc expr_table String.eqb Ascii.eqb Bool.eqb].
+  unfold match_comp, candidates. apply unwind_ok. intro c. reflexivity.
+Qed.
+
+Lemma literal_ref d ps x :
+  d1 (VDoc d) = true -> d3 (VDoc d) = true -> good_path (split_path ps) = true ->
+  negb (fans_out (VDoc d) (split_path ps)) || plain_scalar x = true ->
+  eval_op x "" d ps = Ok (some_expanded (VDoc d) (split_path ps) (fun c => req c x)).
+Proof.
+  intros H1 H3 Hg Hc. rewrite eval_default. f_equal. unfold req.
+  rewrite <- (candidates_ref d ps (fun c => rel "$eq" c x) H1 H3 Hg).
+  - apply existsb_ext_in. intros c _. apply holds_rel. simpl. auto.
+  - apply (fan_or_scalar d ps (plain_scalar x)); [exact Hc|]. apply rel_scalar_test.
+Qed.
+
+Lemma field_of_ops x : sub op_agrees x -> field_agrees x.
+Proof.
+  intros Hsub d ps H1 H3 Hc. unfold core_field in Hc.
+  apply andb_prop in Hc. destruct Hc as [Hg Hc].
+  assert (Hlit : forall y, negb (fans_out (VDoc d) (split_path ps)) || plain_scalar y = true ->
+                 eval_op y "" d ps = Ok (some_expanded (VDoc d) (split_path ps) (fun c => req c y)))
+    by (intro y; apply literal_ref; assumption).
+  unfold field_cond, ref_field.
+  destruct x as [| | ? | ? | ? | ? ? | ? | exps | ? | ? ? | ? | ? | ? | ? ? | ? ?];
+    try (apply Hlit; exact Hc).
+  destruct exps as [|[k0 y0] rest].
+  - apply Hlit. exact Hc.
+  - destruct (is_op k0) eqn:Hk.
+    + rewrite core_ops_forallb in Hc. rewrite all_ops_forallb.
+      apply ops_loop_ref; assumption.
+    + apply Hlit. rewrite Hc. reflexivity.
+Qed.
+
+(* $elemMatch *)
+Lemma first_ok_ok_in (f : value -> bool) op l b :
+  (forall c, In c l -> op c = Ok (f c)) -> first_ok op l (Ok b) = Ok (existsb f l || b).
+Proof.
+  induction l as [|x l IH]; intro H; simpl; [reflexivity|].
+  rewrite (H x) by (left; reflexivity). rewrite IH by (intros c Hc; apply H; right; exact Hc).
+  destruct (f x); reflexivity.
+Qed.
+
+Lemma split_item k : split_path ("item" ++ "." ++ k) = elem_path ++ split_path k.
+Proof. reflexivity. Qed.
+
+(* presenting the element as the field `item` does not change what a path reaches *)
+Lemma elem_root_lookup e p : rlookup (elem_root e) (elem_path ++ p) = rlookup e p.
+Proof. unfold elem_root, elem_path. simpl app. rewrite rlookup_doc. reflexivity. Qed.
+
+Lemma elem_root_fans_out e p : fans_out (elem_root e) (elem_path ++ p) = fans_out e p.
+Proof. unfold elem_root, elem_path. simpl app. rewrite fans_out_doc. reflexivity. Qed.
+
+Lemma elem_process q e :
+  Forall (fun kv => op_agrees (snd kv) /\ field_agrees (snd kv)) q ->
+  d1 e = true -> d3 e = true ->
+  forallb (elem_cond_core false e) q = true ->
+  process_nr eval_op q [("item", e)] "item" = Ok (forallb (elem_cond_ref e) q).
+Proof.
+  intros HF H1 H3.
+  assert (H1' : d1 (VDoc [("item", e)]) = true) by (simpl; rewrite H1; reflexivity).
+  assert (H3' : d3 (VDoc [("item", e)]) = true) by (simpl; rewrite H3; reflexivity).
+  induction q as [|[k y] t IH]; intro Hc; [reflexivity|].
+  inversion HF as [|? ? [Hop Hfield] Ht]; subst. simpl snd in Hop, Hfield.
+  cbn [forallb] in Hc. apply andb_prop in Hc. destruct Hc as [Hcy Hct].
+  change (process_nr eval_op ((k, y) :: t) [("item", e)] "item")
+    with (and_then (pexpr_nr eval_op y k [("item", e)] "item") (process_nr eval_op t [("item", e)] "item")).
+  rewrite (IH Ht Hct). cbn [forallb].
+  unfold elem_cond_core in Hcy. simpl fst in Hcy. simpl snd in Hcy.
+  change (elem_cond_ref e (k, y)) with (if is_op k then ref_op y k (elem_root e) elem_path else ref_field ref_op y (elem_root e) (elem_path ++ split_path k)).
+  unfold pexpr_nr. destruct (is_op k).
+  - rewrite (Hop [("item", e)] "item" k H1' H3' eq_refl Hcy).
+    change (split_path "item") with elem_path. unfold elem_root.
+    destruct (ref_op y k (VDoc [("item", e)]) elem_path); reflexivity.
+  - change (join_prefix "item" k) with ("item" ++ "." ++ k)%string.
+    rewrite <- split_item in Hcy. rewrite (Hfield [("item", e)] ("item" ++ "." ++ k)%string H1' H3' Hcy).
+    rewrite split_item. unfold elem_root.
+    destruct (ref_field ref_op y (VDoc [("item", e)]) (elem_path ++ split_path k)); reflexivity.
+Qed.
+
+Lemma d3_arr_elems arr e : d3 (VArr arr) = true -> In e arr -> d3 e = true.
+Proof. intros H Hin. apply d3_arr in H. rewrite Forall_forall in H. destruct (H e Hin) as [_ He]. exact He. Qed.
+
+Lemma d1_arr_elem arr e : d1 (VArr arr) = true -> In e arr -> d1 e = true.
+Proof. intros H Hin. apply d1_arr in H. rewrite Forall_forall in H. destruct (H e Hin) as [_ He]. exact He. Qed.
+
+Lemma leaf_elem d ps q :
+  d1 (VDoc d) = true -> d3 (VDoc d) = true -> good_path (split_path ps) = true ->
+  Forall (fun kv => op_agrees (snd kv) /\ field_agrees (snd kv)) q ->
+  core_op false (VDoc q) "$elemMatch" (VDoc d) (split_path ps) = true ->
+  eval_op (VDoc q) "$elemMatch" d ps = Ok (ref_op (VDoc q) "$elemMatch" (VDoc d) (split_path ps)).
+Proof.
+  intros H1 H3 Hg HF Hc. rewrite core_op_elem in Hc. rewrite ref_op_elem.
+  apply andb_prop in Hc. destruct Hc as [Hf Hc]. apply negb_true_iff in Hf.
+  rewrite eval_op_eq. cbn [lookup_expr assoc expr_table String.eqb Ascii.eqb Bool.eqb].
+  destruct q as [|kv0 q]; [discriminate|].
+  unfold elem_body.
+  destruct (All_no_fan d ps Hg Hf) as [y [HA HR]].
+  rewrite HA. unfold some_unexpanded. rewrite HR in *. simpl fst. cbn [existsb forallb] in *.
+  rewrite orb_false_r. rewrite andb_true_r in Hc.
+  destruct y as [| | ? | ? | ? | ? ? | ? | ? | es | ? ? | ? | ? | ? | ? ? | ? ?]; try reflexivity.
+  assert (G : get (VDoc d) (split_path ps) true true = (VArr es, false)).
+  { specialize (HA true true). rewrite All_eq in HA.
+    destruct (get (VDoc d) (split_path ps) true true) as [v n].
+    destruct n; simpl in HA; [destruct v; discriminate|]. exact HA. }
+  pose proof (get_single_d1 _ _ _ _ H1 G) as D1y.
+  pose proof (get_single_d3 _ _ _ _ H3 G) as D3y.
+  rewrite (first_ok_ok_in (fun e => forallb (elem_cond_ref e) (kv0 :: q))).
+  - rewrite orb_false_r. reflexivity.
+  - intros e Hin. apply elem_process.
+    + exact HF.
+    + exact (d1_arr_elem es e D1y Hin).
+    + exact (d3_arr_elems es e D3y Hin).
+    + rewrite forallb_forall in Hc. apply Hc. exact Hin.
+Qed.
+
+Theorem op_field_ref : forall x, op_agrees x /\ field_agrees x.
+Proof.
+  induction x as [x IHx] using value_ind'.
+  assert (Hop : op_agrees x).
+  { intros d ps op H1 H3 Hg Hc.
+    pose proof (core_op_covered x op (VDoc d) (split_path ps) Hc) as Hin.
     unfold covered_ops, rel_ops, bits_ops in Hin. simpl in Hin.
-    destruct Hin as [E|[E|[E|[E|[E|[E|[E|[E|[E|[E|[E|[E|[E|[E|[E|[E|[E|[E|[]]]]]]]]]]]]]]]]]]]; subst op.
+    destruct Hin as [E|[E|[E|[E|[E|[E|[E|[E|[E|[E|[E|[E|[E|[E|[E|[E|[E|[E|[E|[]]]]]]]]]]]]]]]]]]]]; subst op.
     - apply leaf_rel; auto.
     - apply leaf_rel; auto.
     - apply leaf_rel; auto.
@@ -763,56 +959,38 @@ Section Ops.
       destruct x as [| | ? | ? | ? | ? ? | ? | exps | ? | ? ? | ? | ? | ? | ? ? | ? ?]; try discriminate.
       destruct exps as [|e0 exps]; [discriminate|].
       simpl in IHx.
+      assert (IHops : Forall (fun kv => op_agrees (snd kv)) (e0 :: exps)).
+      { eapply Forall_impl; [|exact IHx]. intros kv [Ho _]. exact Ho. }
       pose proof (forallb_is_op_keys _ _ Hc) as Hkeys.
       unfold not_body.
       rewrite (not_loop_negates d ps (e0 :: exps) Hkeys).
-      rewrite (ops_loop_ref (e0 :: exps) IHx Hc).
+      rewrite (ops_loop_ref d ps (e0 :: exps) H1 H3 Hg IHops Hc).
       rewrite (forallb_drop_is_op _ _ Hkeys). reflexivity.
     - apply leaf_all; auto.
+    - (* $elemMatch *)
+      destruct x as [| | ? | ? | ? | ? ? | ? | q | ? | ? ? | ? | ? | ? | ? ? | ? ?];
+        try (rewrite core_op_elem in Hc; apply andb_prop in Hc; destruct Hc as [_ Hc]; discriminate).
+      simpl in IHx. apply leaf_elem; assumption.
     - apply leaf_bits; auto.
     - apply leaf_bits; auto.
     - apply leaf_bits; auto.
-    - apply leaf_bits; auto.
-  Qed.
+    - apply leaf_bits; auto. }
+  split; [exact Hop|].
+  apply field_of_ops.
+  destruct x; simpl; try exact I; simpl in IHx.
+  - eapply Forall_impl; [|exact IHx]. intros kv [Ho _]. exact Ho.
+  - eapply Forall_impl; [|exact IHx]. intros v [Ho _]. exact Ho.
+Qed.
 
-  (* field conditions *)
-  Lemma eval_default x :
-    eval_op x "" d ps = Ok (existsb (fun c => holds "$eq" c x) (candidates d ps)).
-  Proof.
-    rewrite eval_op_eq. cbn [lookup_expr assoc expr_table String.eqb Ascii.eqb Bool.eqb].
-    unfold match_comp, candidates. apply unwind_ok. intro c. reflexivity.
-  Qed.
+Theorem op_ref x : op_agrees x.
+Proof. apply op_field_ref. Qed.
 
-  Lemma literal_ref x :
-    negb (fans_out root p) || plain_scalar x = true ->
-    eval_op x "" d ps = Ok (some_expanded root p (fun c => req c x)).
-  Proof.
-    intro Hc. rewrite eval_default. f_equal. unfold req.
-    rewrite <- (candidates_ref d ps (fun c => rel "$eq" c x) H1 H3 Hg).
-    - apply existsb_ext_in. intros c _. apply holds_rel. simpl. auto.
-    - apply (fan_or_scalar d ps (plain_scalar x)); [exact Hc|]. apply rel_scalar_test.
-  Qed.
+Theorem field_ref d ps x :
+  d1 (VDoc d) = true -> d3 (VDoc d) = true ->
+  core_field (core_op false) x (VDoc d) (split_path ps) = true ->
+  field_cond eval_op x d ps = Ok (ref_field ref_op x (VDoc d) (split_path ps)).
+Proof. intros H1 H3 Hc. apply (proj2 (op_field_ref x)); assumption. Qed.
 
-  Theorem field_ref x :
-    core_field (core_op false) x root p = true ->
-    field_cond eval_op x d ps = Ok (ref_field ref_op x root p).
-  Proof.
-    unfold core_field. intro Hc. apply andb_prop in Hc. destruct Hc as [_ Hc].
-    assert (Hlit : forall y, negb (fans_out root p) || plain_scalar y = true ->
-                   eval_op y "" d ps = Ok (some_expanded root p (fun c => req c y)))
-      by exact literal_ref.
-    unfold field_cond, ref_field.
-    destruct x as [| | ? | ? | ? | ? ? | ? | exps | ? | ? ? | ? | ? | ? | ? ? | ? ?];
-      try (apply Hlit; exact Hc).
-    destruct exps as [|[k0 y0] rest].
-    - apply Hlit. exact Hc.
-    - destruct (is_op k0) eqn:Hk.
-      + rewrite core_ops_forallb in Hc. rewrite all_ops_forallb.
-        apply ops_loop_ref; [|exact Hc].
-        apply Forall_forall. intros kv _. apply op_ref.
-      + apply Hlit. rewrite Hc. reflexivity.
-  Qed.
-End Ops.
 
 (* ---------------------------------------------------------------- *)
 (* top level: $and / $or / $nor, implicit and *)
@@ -912,8 +1090,7 @@ Section Top.
         { destruct x; simpl in Hc; rewrite Hk in Hc; exact Hc. }
         assert (Hr : ref_top x k root = ref_field ref_op x root (split_path k)).
         { destruct x; simpl; rewrite Hk; reflexivity. }
-        rewrite Hr. apply (field_ref d k H1 H3); [|exact Hc'].
-        unfold core_field in Hc'. apply andb_prop in Hc'. tauto.
+        rewrite Hr. apply (field_ref d k x H1 H3 Hc').
     - destruct x; try exact I. simpl in IHx. apply filter_agrees. exact IHx.
   Qed.
 End Top.
@@ -921,18 +1098,23 @@ End Top.
 (* ---------------------------------------------------------------- *)
 (* the agreement theorem on the covered part of the core domain *)
 
-(* Covered: $and, $or, $nor, implicit and, literal equality, $eq, $gt, $gte,
-   $lt, $lte, $ne, $in, $nin, $exists, $type, $size, $mod, $bitsAllSet,
-   $bitsAllClear, $bitsAnySet, $bitsAnyClear, $not, $all.  Not covered by the
-   proof (tested only, family matchref): $elemMatch.  Outside the domain:
-   $jsonSchema. *)
-Theorem match_ref_partial d f :
-  core_covered d f -> Match d f = Ok (RefMatch.holds d f).
+(* Every operator of the core domain: $and, $or, $nor, implicit and, literal
+   equality, $eq, $gt, $gte, $lt, $lte, $ne, $in, $nin, $exists, $type, $size,
+   $mod, $bitsAllSet, $bitsAllClear, $bitsAnySet, $bitsAnyClear, $not, $all,
+   $elemMatch.  $jsonSchema has no reference semantics here and is outside
+   `core`. *)
+Theorem match_ref d f :
+  core d f -> Match d f = Ok (RefMatch.holds d f).
 Proof.
-  unfold core_covered, coreb_gen. intro H.
+  unfold core, coreb, coreb_gen. intro H.
   apply andb_prop in H. destruct H as [H Hf]. apply andb_prop in H. destruct H as [H1 H3].
   destruct (top_ref d H1 H3 (VDoc f)) as [_ Hq]. exact (Hq Hf).
 Qed.
+
+(* the name under which the theorem was first proved for a subset of the operators *)
+Theorem match_ref_partial d f :
+  core_covered d f -> Match d f = Ok (RefMatch.holds d f).
+Proof. exact (match_ref d f). Qed.
 
 (* ---------------------------------------------------------------- *)
 (* the boundaries of the core domain: concrete inputs on which lungo's
